@@ -69,8 +69,11 @@ man = {
     "not_applicable": [],
     "notes": "All checks are static (family: static analysis). Exit 0 = every obligation discharged or listed as known finding; "
              "exit 1 + VIOLATION line = new finding; exit 2 + ANALYSIS-ERROR = cannot decide (vanished anchor function, rule below its "
-             "instance floor) and no finding. Development aids that are not registered checks: python3 -m sa.corpus (patch corpora "
-             "seeded/ and benign/), python3 -m sa.selftest.",
+             "instance floor) and no finding. quick = all rules of the property on /repo's working tree. thorough = quick plus the checker "
+             "self-test of that property: its one-construct variants and its committed seeded/ and benign/ patches are applied to scratch "
+             "copies (tempfile, removed at once) and analysed statically - nothing is executed; the self-test can only turn a clean run into "
+             "exit 2 (and only on the reference tree), never hide or create a VIOLATION. Development aids that are not registered checks: "
+             "python3 -m sa.corpus (all rules on all patches), python3 -m sa.selftest, tools/canon_roundtrip.py.",
 }
 json.dump(man, open("/verif/MANIFEST.json", "w"), indent=1)
 print("wrote MANIFEST.json with", len(checks), "checks")
